@@ -506,6 +506,14 @@ func (t *Task) load(
 	if len(first.Header.Parent) == 32 && !bytes.Equal(localHash, first.Header.Parent) {
 		return nil, ErrReorg
 	}
+	// partitions are fetched independently: the chain may have been
+	// reorganised between two fetches, so adjacent blocks must link
+	for i := 1; i < len(blocks); i++ {
+		parent, hash := blocks[i].Header.Parent, blocks[i-1].Header.Hash
+		if len(parent) == 32 && len(hash) == 32 && !bytes.Equal(parent, hash) {
+			return nil, fmt.Errorf("loading blocks: block %d does not extend block %d", blocks[i].Num(), blocks[i-1].Num())
+		}
+	}
 	slog.DebugContext(ctx, "load",
 		"n", last.Num(),
 		"h", fmt.Sprintf("%.4x", last.Hash()),
